@@ -41,6 +41,17 @@ CLAIMS = {
              "floating-point products / inverse DFT aliasing are decided by the FFT/NTT families where listed in evidence",
         technique="CBMC bounded model checking (SAT) of the real C code with aliased exactly-sized buffers; native ASan replay",
         ref="DESIGN.md 4/C13"),
+    "C06": dict(
+        text="The real reim/cplx FFT and iFFT code (reference C, AVX2/FMA C through the intrinsics shim, the four hand-written 16-point .s "
+             "leaves through a validated transpiler) is executed symbolically by CBMC on the real tables for m in {1..64} (256 thorough); the "
+             "exported VC is re-interpreted over the reals: every output is an exact linear form of the 2m symbolic inputs with a rigorous "
+             "rounding radius, compared with the documented transform (evaluation at omega^(1+4 bitrev j)). A sound unit-input alarm rule "
+             "derived from the property decides violations (replayed natively against a long-double DFT); the all-input norm-wise constant "
+             "itself is certified component-wise only (numbers in evidence). Tables read-only and memory safety by the bit-precise run.",
+        note="cbmc 6.11 symex + vcalg (own re-interpreter) + mpmath; standard rounding model, no over/underflow; tables and kernel selection "
+             "dumped natively from the real builders; m>64 (256) and AVX-512/SSE units outside",
+        technique="CBMC symbolic execution of the real code, exported VC re-interpreted in a real-arithmetic domain with rounding radii (vcalg); bit-precise CBMC run for memory/frame; native replay",
+        ref="DESIGN.md 4/C06"),
 }
 
 NOT_YET = "check not built yet in this session (work in progress; see DESIGN.md section 4 for the plan)"
